@@ -140,6 +140,19 @@ func Results(call ssa.Value) *CallRes {
 
 func (r *CallRes) isRes(v ssa.Value) (kind byte) {
 	v = Resolve(v)
+	if ph, ok := v.(*ssa.Phi); ok {
+		// a variable assigned from this call on one arm and from a sibling call
+		// on the other (`if c { v, err = f() } else { v, err = g() }`)
+		for _, e := range ph.Edges {
+			if _, isPhi := Resolve(e).(*ssa.Phi); isPhi {
+				continue
+			}
+			if k := r.isRes(e); k != 0 {
+				return k
+			}
+		}
+		return 0
+	}
 	switch {
 	case r.Bool[v]:
 		return 'b'
@@ -164,7 +177,7 @@ func (r *CallRes) Eval(v ssa.Value, usePtr bool, depth int) tri {
 		return unk
 	}
 	v = Resolve(v)
-	if r.Bool[v] {
+	if r.isRes(v) == 'b' {
 		return tTrue
 	}
 	switch x := v.(type) {
@@ -175,7 +188,7 @@ func (r *CallRes) Eval(v ssa.Value, usePtr bool, depth int) tri {
 	case *ssa.BinOp:
 		l, rr := Resolve(x.X), Resolve(x.Y)
 		for i := 0; i < 2; i++ {
-			if r.Err[l] && IsNilConst(rr) {
+			if r.isRes(l) == 'e' && IsNilConst(rr) {
 				if x.Op == token.EQL {
 					return tTrue
 				}
@@ -183,7 +196,7 @@ func (r *CallRes) Eval(v ssa.Value, usePtr bool, depth int) tri {
 					return tFalse
 				}
 			}
-			if usePtr && r.Ptr[l] && IsNilConst(rr) {
+			if usePtr && r.isRes(l) == 'p' && IsNilConst(rr) {
 				if x.Op == token.EQL {
 					return tFalse
 				}
@@ -191,7 +204,7 @@ func (r *CallRes) Eval(v ssa.Value, usePtr bool, depth int) tri {
 					return tTrue
 				}
 			}
-			if r.Bool[l] {
+			if r.isRes(l) == 'b' {
 				if b, ok := ConstBool(rr); ok {
 					if x.Op == token.EQL {
 						if b {
@@ -207,7 +220,7 @@ func (r *CallRes) Eval(v ssa.Value, usePtr bool, depth int) tri {
 					}
 				}
 			}
-			if r.Int[l] {
+			if r.isRes(l) == 'i' {
 				if n, ok := ConstInt(rr); ok {
 					good := int64(0)
 					a, b := good, n
@@ -248,7 +261,7 @@ func (r *CallRes) Depends(v ssa.Value, usePtr bool, depth int) bool {
 		return false
 	}
 	v = Resolve(v)
-	if r.Bool[v] || r.Err[v] || r.Int[v] || (usePtr && r.Ptr[v]) {
+	if k := r.isRes(v); k == 'b' || k == 'e' || k == 'i' || (usePtr && k == 'p') {
 		return true
 	}
 	switch x := v.(type) {
